@@ -1,3 +1,4 @@
+import BigDec.Model.ToF64
 import BigDec.Model.Exp
 import BigDec.Spec.ExpEnclosure
 import BigDec.Spec.Round
@@ -37,7 +38,7 @@ def handle (op : String) (args : List String) (impl : String) : Verdict :=
     match parseDec? x, parseNat? prec, parseDec? impl with
     | some x, some P, some r =>
       let cfg := C08.cfgOf P
-      let model := x.exp cfg estF64
+      let model := x.exp cfg F64.estCode
       let (ok, concl, why) := expOK x r P
       let mok := match model with
         | some m => (expOK x m P).1
